@@ -294,7 +294,7 @@ func (tnc *TNC) runControlLoop() error {
 					log.Println("-->", str)
 				}
 
-				if err := writeCtrlFrame(tnc.isTCP, tnc.ctrl, str); err != nil {
+				if err := writeCtrlFrame(tnc.isTCP, tnc.ctrl, "%s", str); err != nil {
 					if debugEnabled() {
 						log.Println(err)
 					}
